@@ -77,13 +77,23 @@ RULE = ("invocation shapes of rec_lambda!: capture pattern over {&,&mut} (<= 4 c
         "calls, also without return value; Y argument types {usize,i64,tuple,array,Option,&[u64],String,&str,&mut Vec,bool,"
         "Vec,Box,&u64}, capture types {Vec<Vec<usize>>,HashMap<(usize,usize),u64>,[u64;3],Cell,String,tuple,Box<dyn FnMut>,"
         "fn pointer,&'static str,Option<Box>}, return types {(),bool,tuple,Vec,Option and Result with ?,Box,array,String,"
-        "usize}, reference arguments borrowed afresh in every iteration of the calling loop; D recursion depth 10^4 (quick) / "
+        "usize, the opaque types impl Iterator<Item=u64> / impl Fn(u64)->u64 / impl Sized / impl Display (all accepted by "
+        "the macro as it stands; not combined with family X on shapes with a &mut capture, an edition-2024 rule), the "
+        "references &u64 / Option<&u64> borrowed from the single shared capture of the shape}; every opaque and borrowed "
+        "return type occurs in the quick tier (8 dedicated shapes); reference arguments borrowed afresh in every iteration "
+        "of the calling loop; D recursion depth 10^4 (quick) / "
         "10^5 (thorough); R the macro site in a loop, repeated arguments, a panic at depth 2 caught by the caller and further "
         "calls; G site inside a generic fn / method / closure, two lambdas with the same recursion name alive, the closure "
         "as Fn+Copy / FnMut / &dyn Fn / Box<dyn ..> / iterator adaptor argument; N recursion name = capture / argument / "
         "binding / std macro name; F recursion name = a free fn the body calls; H 1.2e6 (1.5e6) invocations of one closure "
         "whose body returns early; K the crate's README examples and tests/tests.rs compiled and run against the freshly "
-        "built library; X the generated programs type check as edition 2018 and 2024 crates. non-trivial = at least one "
+        "built library; X the generated programs type check as edition 2018 and 2024 crates. INVOCATION FORM, orthogonal to "
+        "shapes and families (rotates over the cases with a period coprime to the family rotation, so every family meets "
+        "every form in the quick tier; base program and expansion use it too; the generated programs have no crate-level "
+        "import of the macro): u `use rlib_lambda::rec_lambda;` + rec_lambda!(..); p full path rlib_lambda::rec_lambda!(..) "
+        "with nothing imported; r renamed import `use .. as rl;` rl!(..); x through a `pub use` re-export in a nested module "
+        "of the program, by path; m from inside a macro_rules! of the program (in p, r, x, m no macro named rec_lambda is in "
+        "scope at the invocation site). non-trivial = at least one "
         "mutable capture, a return value or a family (something observable)")
 TRUSTED = ["translator in checks/c20.py (macro_rules! arms of rlib/lambda/src/lib.rs -> Gallina value `macros`); its output is "
            "cross-checked on every shape against rustc's real expansion (-Zunpretty=expanded); it refuses (broken obligation) "
@@ -545,6 +555,17 @@ ARG_FIRST = "abcdefghilmn"        # types the first (depth) argument may have
 CAP_TYS = "VUWHACTPBFRO"          # Vec<u64> u64 Vec<Vec<usize>> HashMap<(usize,usize),u64> [u64;3] Cell<u64> String (u64,String)
 #                                   Box<dyn FnMut(u64)->u64> fn(u64)->u64 &'static str Option<Box<u64>>
 RET_TYS = "unbtvorxasz"           # u64 () bool (u64,bool) Vec<u64> Option<u64> Result<u64,String> Box<u64> [u64;2] String usize
+RET_OPAQUE = "IFSD"               # impl Iterator<Item = u64>, impl Fn(u64) -> u64, impl Sized, impl std::fmt::Display (all four are
+#                                   accepted by the macro as it stands: the type is only pasted into the generated fn's signature)
+RET_REFS = "RQ"                   # &u64, Option<&u64> borrowed from the shape's single shared capture (lifetime elision in the generated
+#                                   fn needs exactly one reference parameter: caps == "S", no reference-typed argument)
+REF_ARGS = "gijn"
+# INVOCATION FORM of the library macro, orthogonal to shapes and families (every macro version of the case uses it; the
+# generated programs have no crate-level import): u `use rlib_lambda::rec_lambda;` + rec_lambda!(..), p full path
+# rlib_lambda::rec_lambda!(..) without any import, r renamed import (`use .. as rl;` rl!(..)), x through a `pub use`
+# re-export in a nested module of the program (crate::inv_forms::nested::rec_lambda!(..)), m from inside a macro_rules!
+# of the program.  In p, r, x, m no macro named `rec_lambda` is in scope at the invocation site.
+FORMS = "uprxm"
 DEPTH = {"quick": 10000, "thorough": 100000}
 HIST = {"quick": 1200000, "thorough": 1500000}     # invocations of one closure (family H)
 
@@ -552,9 +573,11 @@ HIST = {"quick": 1200000, "thorough": 1500000}     # invocations of one closure 
 def harness_line(c):
     base = "%s %s %d %d %d" % (c["caps"] or "-", c["tys"] or "-", c["nargs"], c["ret"], c["syn"])
     fams = c.get("fams") or []
-    if not fams:
+    form = c.get("form") or "u"
+    if not fams and form == "u":
         return base
-    return "%s %s %s %s %s" % (base, ",".join(fams), c.get("atys") or "-", c.get("ctys") or "-", c.get("rty") or "-")
+    line = "%s %s %s %s %s" % (base, ",".join(fams) or "-", c.get("atys") or "-", c.get("ctys") or "-", c.get("rty") or "-")
+    return line if form == "u" else line + " " + form
 
 
 def all_patterns(maxlen=4):
@@ -565,13 +588,27 @@ def all_patterns(maxlen=4):
     return out
 
 
-def mk(rng, caps, nargs, ret, syn, fams=()):
+def mk(rng, caps, nargs, ret, syn, fams=(), form="u", rty=None):
     tys = "".join("U" if rng.chance(1, 3) else "V" for _ in caps)
     c = {"caps": caps, "tys": tys, "nargs": nargs, "ret": ret, "syn": syn}
-    return with_fams(rng, c, fams)
+    if form != "u":
+        c["form"] = form
+    return with_fams(rng, c, fams, rty)
 
 
-def with_fams(rng, c, fams):
+def ret_pool(c, fams):
+    """return types of the type family that the unchanged macro supports on this shape"""
+    pool = RET_TYS + RET_OPAQUE
+    if "X" in fams and "M" in c["caps"]:
+        # edition 2024: an opaque return type captures the lifetime of the `&mut` parameter, so neither the hand-written
+        # wrapper closure nor the generated one may return it (a rule of the edition, not of the macro)
+        pool = RET_TYS
+    if c["caps"] == "S":
+        pool += RET_REFS
+    return pool
+
+
+def with_fams(rng, c, fams, rty=None):
     fams = [f for f in fams]
     if not fams:
         return c
@@ -579,7 +616,11 @@ def with_fams(rng, c, fams):
     if "Y" in fams:
         c["atys"] = rng.choice(ARG_FIRST) + "".join(rng.choice(ARG_TYS) for _ in range(c["nargs"] - 1))
         c["ctys"] = "".join(rng.choice(CAP_TYS) for _ in c["caps"])
-        c["rty"] = rng.choice(RET_TYS) if c["ret"] else "-"
+        pick = rng.choice(ret_pool(c, fams))
+        c["rty"] = (rty or pick) if c["ret"] else "-"
+        if c["rty"] in RET_REFS:
+            c["atys"] = "".join("a" if t in REF_ARGS else t for t in c["atys"])
+            c["ctys"] = "V"
     return c
 
 
@@ -596,6 +637,8 @@ FULL_QUICK = [("SM", 1, 1, 0, "KX"), ("", 1, 1, 1, "X"), ("", 2, 0, 0, ""), ("S"
               ("SMS", 3, 0, 1, ""), ("MSM", 3, 1, 0, "X"), ("SMSM", 4, 1, 1, ""), ("MMSS", 2, 0, 0, ""), ("", 3, 1, 1, ""), ("SS", 1, 0, 1, "")]
 # count boundaries (the munchers use one macro recursion level per head; "any number" of captures)
 BIG_QUICK = [("SM" * 4, 6, 1, 1), ("M" * 16, 1, 0, 0)]
+# every opaque / borrowed return type of the type family at least once in the quick tier (capture pattern, arguments, type)
+RET_QUICK = [("", 1, "I"), ("SM", 2, "I"), ("", 2, "F"), ("MS", 1, "F"), ("S", 3, "S"), ("M", 1, "D"), ("S", 2, "R"), ("S", 1, "Q")]
 BIG_THOROUGH = [(p, n, ret, syn) for p in ("SM" * 4, "SM" * 8, "SM" * 16, "SM" * 30, "S" * 8, "S" * 16, "S" * 32, "S" * 60,
                                            "M" * 8, "M" * 16, "M" * 32, "M" * 60, "MMS" * 11, "S" + "M" * 40)
                 for (n, ret, syn) in ((1, 1, 0), (6, 0, 1), (8, 1, 1))]
@@ -613,17 +656,23 @@ def generate(rng, tier):
                     for syn in (0, 1):
                         # every family on every shape of the stated quantifier; README + tests once; editions on a third
                         extra = ("K" if (p, n, ret, syn) == ("SM", 1, 1, 0) else "") + ("X" if k % 3 == 0 else "")
-                        cases.append(mk(rng, p, n, ret, syn, all_fams(tier, extra)))
+                        cases.append(mk(rng, p, n, ret, syn, all_fams(tier, extra), FORMS[k % 5]))
                         k += 1
         for p in all_patterns(5)[len(pats):]:     # beyond the stated quantifier: 5 captures, 2 and 5 arguments
             for n in (2, 5):
                 for ret in (0, 1):
                     for syn in (0, 1):
-                        cases.append(mk(rng, p, n, ret, syn, [cyc[k % len(cyc)], cyc[(k + 4) % len(cyc)]]))
+                        cases.append(mk(rng, p, n, ret, syn, [cyc[k % len(cyc)], cyc[(k + 4) % len(cyc)]], FORMS[k % 5]))
                         k += 1
         for (p, n, ret, syn) in BIG_THOROUGH:
-            c = mk(rng, p, n, ret, syn)
+            c = mk(rng, p, n, ret, syn, form=FORMS[k % 5])
+            k += 1
             cases.append(dict(c, tys="".join("U" if i % 3 == 2 else "V" for i in range(len(p)))))
+        for rty in RET_OPAQUE + RET_REFS:        # every opaque / borrowed return type on a row of shapes, every form
+            for p in (("", "S", "M", "SM", "MSS") if rty in RET_OPAQUE else ("S",)):
+                for n in (1, 2, 3):
+                    cases.append(mk(rng, p, n, 1, k % 2, ["Y"], FORMS[k % 5], rty))
+                    k += 1
         # fixed stride permutation: every prefix of the list is a spread sample of all categories (the enlarged searches
         # of the driver and of extra() take prefixes)
         n, stride = len(cases), 389
@@ -634,24 +683,29 @@ def generate(rng, tier):
     for n in (1, 2, 3, 4):                       # no captures, everything
         for ret in (0, 1):
             for syn in (0, 1):
-                cases.append(mk(rng, "", n, ret, syn, [cyc[k % len(cyc)]]))
+                cases.append(mk(rng, "", n, ret, syn, [cyc[k % len(cyc)]], FORMS[k % 5]))
                 k += 1
     combos = [(n, ret, syn) for n in (1, 2, 3, 4) for ret in (0, 1) for syn in (0, 1)]
     rng.shuffle(combos)
     for i, p in enumerate(pats[1:]):             # every non-empty pattern, cycling through the combinations
         n, ret, syn = combos[i % len(combos)]
-        cases.append(mk(rng, p, n, ret, syn, [cyc[k % len(cyc)]]))
+        cases.append(mk(rng, p, n, ret, syn, [cyc[k % len(cyc)]], FORMS[k % 5]))
         k += 1
     for p in ("SMSM", "MSMS", "SMS", "MSM"):     # alternating patterns, 3 and 4 arguments, everything
         for n in (3, 4):
             for ret in (0, 1):
                 for syn in (0, 1):
-                    cases.append(mk(rng, p, n, ret, syn, [cyc[k % len(cyc)]]))
+                    cases.append(mk(rng, p, n, ret, syn, [cyc[k % len(cyc)]], FORMS[k % 5]))
                     k += 1
     for (p, n, ret, syn, extra) in FULL_QUICK:   # every family on a spread of shapes
-        cases.append(mk(rng, p, n, ret, syn, all_fams(tier, extra)))
+        cases.append(mk(rng, p, n, ret, syn, all_fams(tier, extra), FORMS[k % 5]))
+        k += 1
     for (p, n, ret, syn) in BIG_QUICK:
-        cases.append(mk(rng, p, n, ret, syn, ["T"]))
+        cases.append(mk(rng, p, n, ret, syn, ["T"], FORMS[k % 5]))
+        k += 1
+    for (p, n, rty) in RET_QUICK:
+        cases.append(mk(rng, p, n, 1, k % 2, ["Y"], FORMS[k % 5], rty))
+        k += 1
     return cases
 
 
@@ -659,7 +713,10 @@ def shrink(c):
     out = []
     fams = c.get("fams") or []
     for i in range(len(fams)):
-        out.append(dict(c, fams=fams[:i] + fams[i + 1:]))
+        d = dict(c, fams=fams[:i] + fams[i + 1:])
+        if fams[i] == "Y":
+            d = {k: v for k, v in d.items() if k not in ("atys", "ctys", "rty")}
+        out.append(d)
     for i, f in enumerate(fams):
         if f[0] in "DH" and int(f[1:]) > 100:
             out.append(dict(c, fams=fams[:i] + ["%s%d" % (f[0], int(f[1:]) // 10)] + fams[i + 1:]))
@@ -682,6 +739,10 @@ def shrink(c):
         out.append(upd(c, ret=0, rty="-"))
     if c["syn"]:
         out.append(dict(c, syn=0))
+    if (c.get("form") or "u") != "u":
+        out.append({k: v for k, v in c.items() if k != "form"})
+        if c["form"] != "p":
+            out.append(dict(c, form="p"))
     if "U" in c["tys"]:
         out.append(dict(c, tys="V" * len(c["tys"])))
     if "Y" in fams:
@@ -701,9 +762,10 @@ def nontrivial(c, obs):
 
 
 def classify(c, obs):
-    return "%dcap/%darg/%s/%s/%s/%s" % (len(c["caps"]), c["nargs"], "ret" if c["ret"] else "noret",
-                                        "trailing" if c["syn"] else "plain",
-                                        "".join(f[0] for f in (c.get("fams") or [])) or "base", obs.split(" ## ")[0])
+    return "%dcap/%darg/%s/%s/%s/%s/%s" % (len(c["caps"]), c["nargs"], "ret" if c["ret"] else "noret",
+                                           "trailing" if c["syn"] else "plain",
+                                           "".join(f[0] for f in (c.get("fams") or [])) or "base",
+                                           "form-" + (c.get("form") or "u"), obs.split(" ## ")[0])
 
 
 def known_finding(c, obs, profile):
@@ -1056,11 +1118,13 @@ MANIFEST = {
     "level_note": "PARTIAL (c20_rustc_partial): the theorems are about the muncher model and its open-recursion semantics. NOT "
                   "modelled: rustc's fragment parsing (ty, expr), hygiene/name resolution, type checking, borrow checking; "
                   "'compiles' and 'behaves like the hand-written function' are established only for the sampled programs by the "
-                  "compile-and-run battery (quick 108 shapes, thorough 810; debug and release build of each; program "
+                  "compile-and-run battery (quick 120 shapes, thorough 880; debug and release build of each; program "
                   "families per shape: call layouts incl. trailing comma and multi-line calls, call-site contexts, early exits, "
-                  "argument expressions using captures, other argument/capture/return types, depth 1e4/1e5, macro site in a "
+                  "argument expressions using captures, other argument/capture/return types incl. opaque `impl Trait` return "
+                  "types and references borrowed from a shared capture, depth 1e4/1e5, macro site in a "
                   "loop + caught panic, usage contexts and closure kind, name collisions, 1.2e6 invocations, the crate's own "
-                  "README and tests, other editions). Trusted: Coq kernel + vm_compute, the translator and expansion parser in "
+                  "README and tests, other editions; each case in one of five invocation forms of the macro: imported, by full "
+                  "path without import, renamed import, through a re-export of a nested module, from inside a local macro). Trusted: Coq kernel + vm_compute, the translator and expansion parser in "
                   "checks/c20.py (cross-checked against rustc's expansion on every shape), the executor, rustc stable/nightly. "
                   "A translation that differs from the snapshot but is proved well_formed at run time and passes the enlarged "
                   "battery is reported in the evidence, not as a violation (SNAPSHOT_STRICT=False). Conditional compilation "
